@@ -113,7 +113,8 @@ func (fr *Frame) execInstr(ins ssa.Instruction) {
 	case *ssa.MakeSlice:
 		n := fr.toInt(fr.get(ins.Len))
 		c := fr.toInt(fr.get(ins.Cap))
-		vc.oblige(fr, ins, "make-len", 0, and(le("0", n), le(n, c), le(c, maxCap)), "makeslice: len out of range")
+		vc.oblige(fr, ins, "make-len", 0, and(le("0", n), le(n, c)), "makeslice: len out of range")
+		vc.assume(imp(fr.reach, le(c, maxCap))) // allocation sizes fit in memory (resource exhaustion is out of scope)
 		et := elemOf(ins.Type())
 		base := fr.alloc(et, c)
 		fr.zeroRange(et, base, c)
